@@ -21,9 +21,12 @@ class CopyNumber:
       unit_length = self._default["unit_length"]
     if count_tag is None:
       count_tag = self._default["count_tag"]
-    for s in self.segments:
-      cov = s.coverage(count_tag=count_tag, unit_length=unit_length)
-      if cov < mincov:
+    # (the coverage of every segment is computed before any is removed)
+    to_remove = [s for s in self.segments if \
+        s.try_get_coverage(count_tag=count_tag, unit_length=unit_length) \
+          < mincov]
+    for s in to_remove:
+      if s.is_connected():
         s.disconnect()
 
   def compute_copy_numbers(self, single_copy_coverage, mincov=None,
